@@ -120,7 +120,8 @@ class NumpyBackendProvider(BackendProvider):
 
         param_names = list(self._collect_params(ir))
         fn_source = f"def _expr({', '.join(param_names)}): return {source}"
-        ns = {'np': np, '_div': compiled_divide}
+        from ..dyads import eval_dyad_power  # not at module level: dyads imports the backends
+        ns = {'np': np, '_div': compiled_divide, '_pow': lambda a, b: eval_dyad_power(a, b, self)}
         try:
             exec(fn_source, ns)
         except Exception:
@@ -144,11 +145,13 @@ class NumpyBackendProvider(BackendProvider):
             if l is None or r is None:
                 return None
             # A verb that is not a Python operator is emitted as a call of its helper:
-            # Divide answers :undefined for a scalar zero divisor (compiled_divide).
-            call = {'%': '_div'}.get(op)
+            # Divide answers :undefined for a scalar zero divisor (compiled_divide);
+            # Power returns integers for whole results and takes the power in floating
+            # point (eval_dyad_power), where ** keeps 4.0**2 real and 2**-1... is libm's pow.
+            call = {'%': '_div', '^': '_pow'}.get(op)
             if call is not None:
                 return f'{call}({l},{r})'
-            py_op = {'+': '+', '-': '-', '*': '*', '^': '**'}.get(op)
+            py_op = {'+': '+', '-': '-', '*': '*'}.get(op)
             if py_op is None:
                 return None
             return f'({l}{py_op}{r})'
